@@ -108,18 +108,20 @@ type Machine struct {
 	narrow           bool
 	narrowViolations []string
 
-	choices      [][2]string
-	asserts      int
-	placeholders map[string]value
-	encMemo      map[*Term]encInfo
-	randCount    int
-	merges       int
-	pcVars       map[*Term]bool
-	freeForks    int
-	fnCache      map[*ssa.Function]*fnInfo
-	freezeStop   map[interface{}]bool
-	lazy         bool
-	mapPerm      map[*mapV][]mapEntry
+	choices          [][2]string
+	asserts          int
+	placeholders     map[string]value
+	encMemo          map[*Term]encInfo
+	randCount        int
+	merges           int
+	pcVars           map[*Term]bool
+	freeForks        int
+	fnCache          map[*ssa.Function]*fnInfo
+	freezeStop       map[interface{}]bool
+	lazy             bool
+	mapPerm          map[*mapV][]mapEntry
+	globalFrozen     map[*value]bool
+	globalFrozenMaps map[*mapV]bool
 }
 
 func NewMachine(sh *Shared, solver *Solver) *Machine {
@@ -163,6 +165,7 @@ func (m *Machine) resetPath(prefix []int32, maxSteps int64) {
 	m.pcVars = nil
 	m.freezeStop = nil
 	m.mapPerm = nil
+	m.globalFrozen, m.globalFrozenMaps = nil, nil
 }
 
 func (m *Machine) pos() string {
